@@ -220,6 +220,8 @@ def c14(run):
     run.design_check("ChannelPlanModel", workers=8, env={"VERIF_GEN": run.tier, "VERIF_GENMODE": "plan"})
     t = run.record("chplan", "plan", n=T(run, 70, 7000))
     run.validate("chplan", t, "Trace_chplan", label="(V) histories x structured/random device sets, all 14 bands", chunk=T(run, 400, 4000))
+    t = run.record("chplan", "plan72", n=T(run, 30, 1500))
+    run.validate("chplan", t, "Trace_chplan", label="(V) nearly complete 72- / 96-channel plans (single channels off at block edges) x device sets", chunk=T(run, 400, 4000))
     t = run.record("chplan", T(run, "planexh10", "planexh"), n=T(run, 4, 24))
     run.validate("chplan", t, "Trace_chplan", label="(V) ALL device subsets of <=%s-channel plans" % T(run, 10, 16), chunk=T(run, 800, 8000))
     run.exhaustive.append("all 2^n device subsets of the generated <=%s-channel plans" % T(run, 10, 16))
@@ -262,6 +264,8 @@ def c20(run):
     run.design_check("MiscModel", workers=4)
     t = run.record("misc", "gps", n=T(run, 6000, 300000))
     run.validate("misc", t, "Trace_misc", label="(V) UTC<->GPS around all leap seconds + 1980..2100", chunk=20000)
+    t = run.record("misc", "gpsfirst", n=T(run, 300, 20000))
+    run.validate("misc", t, "Trace_misc", label="(V) GPS->UTC as the first calls of a fresh process", chunk=20000)
     t = run.record("misc", "airtime", n=T(run, 0, 1))
     run.validate("misc", t, "Trace_misc", label="(V) airtime sweeps payload 0..255 per parameter point", chunk=T(run, 125, 400))
     if run.tier == "thorough":
@@ -303,6 +307,8 @@ def c19(run):
     run.exhaustive.append("all erasure patterns for M<=%s, redundancy<=%s" % (T(run, 7, 10), T(run, 4, 6)))
     t = run.record("fec", "encode", n=T(run, 150, 6000))
     run.validate("fec", t, "Trace_fec", label="(V) sizes 1..64 x counts 1..300 x redundancy 0..100, invalid sizes", chunk=T(run, 12, 60))
+    t = run.record("fec", "concurrent", n=T(run, 6, 150))
+    run.validate("fec", t, "Trace_fec", label="(V) eight encoders running at the same time, each result against the specification", chunk=T(run, 12, 60))
     run.require_kinds("fec/fec", "fec/feclin")
     run.rc = run.finish(assumptions=["TS004 reference matrix_line / prbs23 in spec/lorawan/FragFEC.tla", "negative redundancy is DON'T-CARE"])
 
